@@ -798,7 +798,7 @@ const (
 
 func c12wFlow(f c12Family) {
 	c12wConfig()
-	vGoInline("(*github.com/lightningnetwork/lnd/contractcourt.ChannelArbitrator).resolveContract")
+	vNoop("(*github.com/lightningnetwork/lnd/contractcourt.ChannelArbitrator).resolveContract")
 
 	x := c12wNewWorld(f)
 	w := x.w
